@@ -98,13 +98,33 @@ func malformedFrame(r *core.Rand) []byte {
 // header length field (inner length / count octets, body octets), until rtcp.Unmarshal rejects
 // it when given alone in a slice of exactly its size. Such a frame is self-delimiting, so a
 // datagram containing it anywhere must fail as a whole.
-func malformedFromValid(r *core.Rand) []byte {
+func malformedFromValid(cs *core.Case, r *core.Rand) []byte {
 	for tries := 0; tries < 40; tries++ {
 		f, ok := genFrame(r, false)
 		if !ok || len(f.b) < 8 {
 			continue
 		}
 		m := cloneBytes(f.b)
+		if r.Chance(1, 3) && len(m) >= 12 {
+			// drop the last 1..3 words and refit the length field: still self-delimiting, but the
+			// type's own element count / inner lengths now overrun the frame
+			m = m[:len(m)-4*r.Pick(1, 1, 1, 2, 3)]
+			if len(m) < 8 {
+				continue
+			}
+			gen.FitLength(m)
+			ps, err, pan := gUnmarshal(cloneBytes(m))
+			if pan != "" {
+				cs.Fail("panic/rtcp.Unmarshal", core.W{"input_hex": mon.Hex(m, 300), "panic": pan, "note": "a valid frame with its last words dropped and the length field refitted"})
+				return nil
+			}
+			if err != nil && ps == nil {
+				return m
+			}
+			if r.Bool() {
+				continue
+			}
+		}
 		for n := 1 + r.Intn(3); n > 0; n-- {
 			switch r.Intn(5) {
 			case 0: // an inner octet → large value (length octets of BYE reasons, SDES items, REMB counts, …)
@@ -121,7 +141,12 @@ func malformedFromValid(r *core.Rand) []byte {
 				m[4+r.Intn(len(m)-4)] ^= byte(1 << uint(r.Intn(8)))
 			}
 		}
-		if ps, err, pan := gUnmarshal(cloneBytes(m)); pan == "" && err != nil && ps == nil {
+		ps, err, pan := gUnmarshal(cloneBytes(m))
+		if pan != "" {
+			cs.Fail("panic/rtcp.Unmarshal", core.W{"input_hex": mon.Hex(m, 300), "panic": pan, "note": "a valid frame damaged in place"})
+			return nil
+		}
+		if err != nil && ps == nil {
 			return m
 		}
 	}
@@ -283,7 +308,7 @@ func c06Datagram(cs *core.Case, fs []frame, source string) {
 		cs.Fail("all-or-nothing/malformed-frame-accepted-alone", core.W{"input_hex": mon.Hex(bad, 64), "packets": vdump(ps1)})
 	}
 	// a damaged frame of a registered type (rejected alone) anywhere in the datagram
-	if bad2 := malformedFromValid(r); bad2 != nil {
+	if bad2 := malformedFromValid(cs, r); bad2 != nil {
 		pos2 := r.Intn(len(fs) + 1)
 		var with []byte
 		with = append(with, concatFrames(fs[:pos2])...)
@@ -420,7 +445,7 @@ func runC06(c *core.Ctx) {
 		for t := 0; t < 2; t++ {
 			fr := e.B
 			if t == 1 {
-				if bad := malformedFromValid(r); bad != nil {
+				if bad := malformedFromValid(cs, r); bad != nil {
 					fr = bad
 				}
 			}
